@@ -8,41 +8,57 @@
 (* reached by the fan-out (finding D12).                                     *)
 EXTENDS Integers, Sequences, FiniteSets, TLC, P_C16
 
-CONSTANTS Rates, MaxTracks, MaxChanges, MaxCb
+CONSTANTS Rates, MaxTracks, MaxChanges, MaxCb,
+          SplitChange   \* TRUE: on_change_sample_rate in its three stretches (yield points rate.stored, rate.walked)
 
 VARIABLES dev, sh,        \* device rate (renderer's dt), published rate
           trk,            \* sequence of [where: "hand" | "ring" | "arena", eff: rate, loaded: rate]
           gpc,            \* gameplay: "idle" | "loaded" (between the rate load and the enqueue)
           stale,          \* a track entered the arena with a rate that was no longer in force (D12 happened)
+          cpc, cr,        \* the rate-change call in progress: "idle" | "stored" | "walked"; the rate it applies
           nchg, cb, act, ev, mon, bad, evq
 
-ivars == <<dev, sh, trk, gpc, stale, nchg, cb, evq>>
+ivars == <<dev, sh, trk, gpc, stale, cpc, cr, nchg, cb, evq>>
 vars == <<ivars, act, ev, mon, bad>>
 
 \* (the initial "rate" event counts as epoch 1 in the monitor)
-Init == /\ dev \in Rates /\ sh = dev /\ trk = <<>> /\ gpc = "idle" /\ stale = FALSE /\ nchg = 0 /\ cb = 0 /\ evq = <<>>
+Init == /\ dev \in Rates /\ sh = dev /\ trk = <<>> /\ gpc = "idle" /\ stale = FALSE /\ cpc = "idle" /\ cr = 0 /\ nchg = 0 /\ cb = 0 /\ evq = <<>>
         /\ act = <<"Init">> /\ ev = [a |-> "rate", r |-> dev] /\ mon = [PInit EXCEPT !.rate = dev, !.epoch = 1] /\ bad = ""
 
 \* add_sub_track, first half: build, load the published rate, init_effects  (then yield point ctl.reserved)
 GLoad == /\ gpc = "idle" /\ Len(trk) < MaxTracks /\ evq = <<>>
          /\ trk' = Append(trk, [where |-> "hand", eff |-> sh])
          /\ gpc' = "loaded" /\ act' = <<"GLoad">> /\ ev' = [a |-> "load", t |-> Len(trk) + 1]
-         /\ UNCHANGED <<dev, sh, stale, nchg, cb, evq>>
+         /\ UNCHANGED <<dev, sh, stale, cpc, cr, nchg, cb, evq>>
 \* second half: enqueue
 GEnqueue == /\ gpc = "loaded" /\ evq = <<>>
             /\ trk' = [trk EXCEPT ![Len(trk)].where = "ring"]
             /\ gpc' = "idle" /\ act' = <<"GEnqueue">> /\ ev' = [a |-> "enq"]
-            /\ UNCHANGED <<dev, sh, stale, nchg, cb, evq>>
+            /\ UNCHANGED <<dev, sh, stale, cpc, cr, nchg, cb, evq>>
 
 \* Renderer::on_change_sample_rate (between callbacks)
-Change(r) == /\ nchg < MaxChanges /\ r # dev /\ evq = <<>>
+Change(r) == /\ ~SplitChange /\ nchg < MaxChanges /\ r # dev /\ evq = <<>>
              /\ dev' = r /\ sh' = r /\ nchg' = nchg + 1
              /\ trk' = [i \in 1..Len(trk) |-> IF trk[i].where = "arena" THEN [trk[i] EXCEPT !.eff = r] ELSE trk[i]]
              /\ act' = <<"Change", r>> /\ ev' = [a |-> "rate", r |-> r]
-             /\ UNCHANGED <<gpc, stale, cb, evq>>
+             /\ UNCHANGED <<gpc, stale, cpc, cr, cb, evq>>
+
+\* the same call in its three stretches: dt and the published rate; the walk over the arena; the return.  The change counts from the moment
+\* the call begins: a track built after that must be given the new rate.  The gameplay thread may build tracks in between.
+ChangeA(r) == /\ SplitChange /\ cpc = "idle" /\ nchg < MaxChanges /\ r # dev /\ evq = <<>>
+              /\ dev' = r /\ sh' = r /\ cpc' = "stored" /\ cr' = r
+              /\ act' = <<"ChangeA", r>> /\ ev' = [a |-> "rate", r |-> r]
+              /\ UNCHANGED <<trk, gpc, stale, nchg, cb, evq>>
+ChangeB == /\ cpc = "stored" /\ cpc' = "walked"
+           /\ trk' = [i \in 1..Len(trk) |-> IF trk[i].where = "arena" THEN [trk[i] EXCEPT !.eff = cr] ELSE trk[i]]
+           /\ act' = <<"ChangeB">> /\ ev' = [a |-> "tau"]
+           /\ UNCHANGED <<dev, sh, gpc, stale, cr, nchg, cb, evq>>
+ChangeEnd == /\ cpc = "walked" /\ cpc' = "idle" /\ nchg' = nchg + 1
+             /\ act' = <<"ChangeEnd">> /\ ev' = [a |-> "tau"]
+             /\ UNCHANGED <<dev, sh, trk, gpc, stale, cr, cb, evq>>
 
 \* a callback: pick up queued tracks, then every track in the arena processes (one proc event each, queued)
-Callback == /\ cb < MaxCb /\ evq = <<>> /\ cb' = cb + 1
+Callback == /\ cb < MaxCb /\ evq = <<>> /\ cpc = "idle" /\ cb' = cb + 1
             /\ LET t2 == [i \in 1..Len(trk) |-> IF trk[i].where = "ring" THEN [trk[i] EXCEPT !.where = "arena"] ELSE trk[i]] IN
                /\ trk' = t2
                /\ stale' = (stale \/ \E i \in 1..Len(trk) : trk[i].where = "ring" /\ trk[i].eff # dev)
@@ -50,11 +66,11 @@ Callback == /\ cb < MaxCb /\ evq = <<>> /\ cb' = cb + 1
                             LET j == CHOOSE k \in 1..Len(t2) : t2[k].where = "arena" /\ Cardinality({h \in 1..k : t2[h].where = "arena"}) = i IN
                             [a |-> "proc", t |-> j, seen |-> t2[j].eff, idt |-> dev]]
             /\ act' = <<"Callback">> /\ ev' = [a |-> "cbk"]
-            /\ UNCHANGED <<dev, sh, gpc, nchg>>
+            /\ UNCHANGED <<dev, sh, gpc, cpc, cr, nchg>>
 Emit == /\ evq # <<>> /\ ev' = Head(evq) /\ evq' = Tail(evq) /\ act' = <<"Emit">>
-        /\ UNCHANGED <<dev, sh, trk, gpc, stale, nchg, cb>>
+        /\ UNCHANGED <<dev, sh, trk, gpc, stale, cpc, cr, nchg, cb>>
 
-INext == GLoad \/ GEnqueue \/ (\E r \in Rates : Change(r)) \/ Callback \/ Emit
+INext == GLoad \/ GEnqueue \/ (\E r \in Rates : Change(r)) \/ (\E r \in Rates : ChangeA(r)) \/ ChangeB \/ ChangeEnd \/ Callback \/ Emit
 Monitor ==
   LET r == Check(mon, ev') IN
   IF bad # "" THEN UNCHANGED <<mon, bad>>
